@@ -3,7 +3,7 @@ FIX_COMMITS = ["4cfe379", "9a3809a", "4be56b0", "7cf11ff", "908d75c", "71fe224"]
 PENDING = "check not built yet in this round (see DESIGN.md section 10 build order); listed here until its check is registered"
 CHECKS = {
  "C06": dict(engine="K+L", technique="bounded model checking of the compiled crate (Kani/CBMC, bit-precise, symbolic limbs) + SMT on release LLVM IR",
-             text="Every obligation is a solver verdict over all stored limb vectors below the modulus (no sampling): linear operators and operator forms bit-precisely in the dev profile by Kani/CBMC; Montgomery kernels as integer lemmas on the release IR. Bounded by unwind 6 (limb loops) only.",
+             text="Every obligation is a solver verdict over all stored limb vectors below the modulus (no sampling): linear operators and all operator forms bit-precisely in the dev profile by Kani/CBMC; on the release IR the same linear operators, Montgomery mul / square / encode / decode (out*R = a*b + K*p - d*p*R on every path, out < p) as linear-integer lemmas with uninterpreted 64x64 products, the field constants against the standard, and the pow loop (Fq, Fr) as a cut-point skeleton for every 256-bit exponent. Bounded by unwind 6 (limb loops) only.",
              design_ref="DESIGN.md 5 (C06), 2, 3",
              note="Trusted: Kani/CBMC, z3, Intel ADC/SBB semantics stub, interpretation of the uninterpreted 64x64 product as integer multiplication; Montgomery decode algebra (x -> x*R^-1 is an additive bijection)."),
 }
@@ -36,7 +36,21 @@ CHECKS.update({
  "C16": _a("Inductive-step composition: from arbitrary representatives every group operation returns a representative of the correct element and every observer depends only on the element; re-runs the C04/C15 obligations on the input classes histories produce (non-canonical identities, un-normalised values).", "DESIGN.md 5 (C16)"),
 })
 CHECKS["C10"]["engine"] = "K+A"
+CHECKS["C09"]["engine"] = "A+L+K"
+CHECKS["C07"]["engine"] = "K+L"
+CHECKS["C13"]["engine"] = "K+L"
+CHECKS["C18"]["engine"] = "K+L"
+CHECKS["C17"]["engine"] = "A+L"
+CHECKS["C12"]["engine"] = "L+A+K"
+CHECKS["C07"]["technique"] += " + SMT on release LLVM IR (range of every kernel result, divrem loop step)"
+CHECKS["C13"]["technique"] += " + SMT on release LLVM IR (encode/decode, divrem loop step as cut point)"
+CHECKS["C18"]["technique"] += " + SMT on release LLVM IR for the other build profile"
+CHECKS["C17"]["technique"] += "; exponent-tracking overlay for the final exponentiations; SMT on release IR for sum_of_products::<4>"
+CHECKS["C12"]["technique"] = "SMT on release LLVM IR (lazy-reduction multiplier) + " + CHECKS["C12"]["technique"]
+CHECKS["C11"]["technique"] = CHECKS["C11"]["technique"] + " + symbolic execution of the tower source (z3) + cut-point skeleton of Gt::pow on the release IR"
+CHECKS["C10"]["technique"] = CHECKS["C10"]["technique"] + " + symbolic execution of to_affine/normalize (z3)"
 CHECKS["C11"]["engine"] = "K+A"
+CHECKS["C11"]["engine"] = "K+A+L"
 NOT_APPLICABLE = {
  "C01": "Bilinearity/non-degeneracy are theorems about Miller functions of degree ~2^65 in the inputs, not a bounded computation: no loop bound or input bound exists under which the real code still computes the SM9 pairing, and one symbolic Montgomery multiplication already exceeds CBMC (20 min, no verdict); the decidable mechanisms are checked under C03/C17.",
  "C02": "Byte-exact end-to-end value of a 65-iteration Miller loop plus a ~3000-bit exponentiation (~10^5 Montgomery multiplications, bit-precisely) cannot be encoded within reach of CBMC/z3; tower, Frobenius constants, final exponentiations and line functions are decided under C17.",
